@@ -284,7 +284,7 @@ def c03_r3(ctx):
         sk = strip_clone(sp[0]['strategy'][2]) if sp and len(sp[0]['strategy']) > 2 else None
         kk = strip_clone(kb[0]['args'][1]) if kb and len(kb[0].get('args', [])) > 1 else None
         ctx.inst('group_by|keyers', {'routing keyer': sk, 'KeyBy keyer': kk})
-        if sk is None or sk != kk:
+        if sk is None or kk is None or sk.replace('^', '') != kk.replace('^', ''):
             ctx.viol('Stream::group_by|keyer-mismatch', f.at,
                      'group_by routes by `%s` but keys the stream by `%s`: elements of one key would be spread over replicas' % (sk, kk), None)
     agg_details(ctx)
@@ -297,7 +297,9 @@ def c03_r3(ctx):
             if (t['callee'].get('path') or '').endswith('block::group_by_hash'):
                 a = render(strip(s2.operand(t['args'][0])))
                 ctx.inst('NextStrategy::group_by|hash', {'hashes': a})
-                if 'keyer' in a and 'item' in a:
+                # group_by_hash(&keyer(item)): the captured keyer (closure capture, rendered through the parent: the
+                # strategy constructor's only function parameter) applied to the closure's own element parameter
+                if ('Fn::call(' in a or 'call(' in a) and 'arg2' in a and ('arg1' in a or 'keyer' in a):
                     ok = True
     if not ok:
         ctx.viol('%s|hash' % gb.path, gb.at, 'NextStrategy::group_by no longer routes by group_by_hash(keyer(item))', None)
@@ -371,6 +373,7 @@ def c11_r1(ctx):
     bc = facts.one(r'Stream::<Op>::binary_connection$')
     sym = q.sym(facts, bc)
     # the tuple (iteration_ctx, left_cache, right_cache) assignments
+    other_p = q.param(bc, 'Stream<', 1)      # binary_connection(self, oth, ..): the second stream
     tups = []
     for bi, blk in enumerate(bc.blocks):
         if blk['cleanup']:
@@ -390,14 +393,14 @@ def c11_r1(ctx):
             ctx.viol('%s|both-cached' % bc.path, s['at'], 'binary_connection caches both inputs', None)
         if l:
             # left cached <=> left ctx empty ; new block inherits the right ctx
-            if not q.cond_has(dnf, lambda a: a[0] == 'bool' and 'is_empty' in a[1] and a[2] is True) or 'b2' not in vals[0] and 'oth' not in vals[0]:
+            if not q.cond_has(dnf, lambda a: a[0] == 'bool' and 'is_empty' in a[1] and a[2] is True) or other_p not in vals[0]:
                 ctx.viol('%s|left-cache' % bc.path, s['at'],
                          'the left input is cached on a path where its iteration context is not known to be empty, or the new block '
                          'does not inherit the other side\'s context (ctx=%s, conditions=%s)' % (vals[0][:60], show_dnf(dnf)), None)
         if r:
             if not q.cond_has(dnf, lambda a: a[0] == 'bool' and 'is_empty' in a[1] and a[2] is False) and not q.cond_has(dnf, lambda a: a[0] == 'bool' and 'is_empty' in a[1]):
                 ctx.viol('%s|right-cache' % bc.path, s['at'], 'the right input is cached without testing which side is outside the loop', None)
-            if 'b1' not in vals[0] and 'self' not in vals[0]:
+            if 'self' not in vals[0]:
                 ctx.viol('%s|right-cache-ctx' % bc.path, s['at'], 'with the right input cached the new block must inherit the left context', None)
         if not l and not r:
             if not q.cond_has(dnf, lambda a: a[0] == 'bool' and ('eq' in a[1].lower()) and a[2] is True):
@@ -503,9 +506,9 @@ def flag_strategy_agreement(ctx):
                     x = strip(sym.operand(a))
                     if x[0] == 'agg' and x[1][0] == 'closure':
                         for cap in x[2]:
-                            r = render(strip(cap))
-                            if 'strategy' in r:
-                                end_src.add(r.lstrip('&*'))
+                            r = render(strip(cap)).lstrip('&*')
+                            if r in {'arg%d' % i_ for i_ in range(1, f.argc + 1) if 'NextStrategy<' in f.locals[i_]['ty']}:
+                                end_src.add(r)
             ctx.inst('%s|%s' % (f.path, s['at']), {'function': f.path, 'flag decided by': sorted(flag_src), 'End built with': sorted(end_src)})
             if flag_src and end_src and not (flag_src & end_src):
                 ctx.viol('%s|flag-strategy-mismatch|%s' % (f.path, sorted(end_src)[0]), s['at'],
@@ -538,6 +541,7 @@ def forward_scheduling_inheritance(ctx):
     facts = ctx.facts
     bc = facts.one(r'Stream::<Op>::binary_connection$')
     sym = q.sym(facts, bc)
+    strat_params = {'arg%d' % i for i in range(1, bc.argc + 1) if 'NextStrategy<' in bc.locals[i]['ty']}
     ends = {}
     for bi, t in bc.calls():
         if (t['callee'].get('path') or '').endswith('::add_operator') and len(t['args']) >= 2:
@@ -546,7 +550,7 @@ def forward_scheduling_inheritance(ctx):
             if x[0] == 'agg' and x[1][0] == 'closure':
                 for cap in x[2]:
                     r = render(strip(cap)).lstrip('&*')
-                    if 'strategy' in r:
+                    if r in strat_params:
                         ends[r] = blk_s
     if len(ends) != 2:
         raise AnchorMissing('binary_connection: expected two End operators built with the two strategies (found %s)' % ends)
